@@ -251,7 +251,37 @@ def _part3(job):
         if gap != 60000 and accepted is True:
             viol.append({'key': 'wrong_spacing_accepted', 'msg': f'leading candles {gap} ms apart were accepted',
                          'witness': {'gap': gap}})
-    return {'viol': viol, 'cnt': cnt, 'sigs': ['spacing']}
+    # several candle sets (second traded symbol / data-route symbol): every set is validated, wherever the bad one is listed
+    for gap in (60000, 300000, 59999):
+        for bad_pos in (0, 1, 2):
+            good = gen.candles({'seed': 6, 'n': 30})
+            bad = gen.candles({'seed': 7, 'n': 30})
+            bad[1:, 0] = bad[0, 0] + gap + np.arange(29) * 60000
+            syms = ['BTC-USDT', 'ETH-USDT', 'SOL-USDT']
+            cands = {}
+            for j, sy in enumerate(syms):
+                cands[f'Sandbox-{sy}'] = {'exchange': 'Sandbox', 'symbol': sy, 'candles': (bad if j == bad_pos else good).copy()}
+            session.isolate()
+            cfg = {'starting_balance': 1000, 'fee': 0, 'type': 'futures', 'futures_leverage': 1, 'futures_leverage_mode': 'cross',
+                   'exchange': 'Sandbox', 'warm_up_candles': 0}
+            routes = [{'exchange': 'Sandbox', 'symbol': sy, 'timeframe': '1m',
+                       'strategy': make_strategy({'seed': 1, 'p_enter': 0, 'observe': 'none'})} for sy in syms[:2]]
+            data_routes = [{'exchange': 'Sandbox', 'symbol': syms[2], 'timeframe': '5m'}]
+            cnt['multi_set_spacing_cases'] = cnt.get('multi_set_spacing_cases', 0) + 1
+            try:
+                backtest(cfg, routes, data_routes, cands)
+                accepted = True
+            except ValueError:
+                accepted = False
+            except Exception as ex:
+                accepted = f'other:{type(ex).__name__}'
+            if gap == 60000 and accepted is not True:
+                viol.append({'key': 'one_minute_candles_rejected', 'msg': f'three well-formed sets -> {accepted}', 'witness': {}})
+            if gap != 60000 and accepted is True:
+                viol.append({'key': 'wrong_spacing_accepted:set_not_last' if bad_pos < 2 else 'wrong_spacing_accepted',
+                             'msg': f'candle set #{bad_pos} of 3 has leading candles {gap} ms apart and was accepted',
+                             'witness': {'gap': gap, 'position': bad_pos}})
+    return {'viol': _dedup(viol), 'cnt': cnt, 'sigs': ['spacing', 'spacing_multi']}
 
 
 def _dedup(viol):
